@@ -138,5 +138,39 @@ expect("basic slice is a view", np.shares_memory(x, x[1:]), True)
 mat = np.zeros((4, 4))
 expect("column selection is a view", np.shares_memory(mat, mat[:, 0]), True)
 expect("negative scalar index wraps", x[-2], 3.0)
+# ---------------------------------------------------------------- lists of view objects: how the list is built does not matter
+# (a) Python: `L = []; for x in S: L.append(f(x))`, `L = []; L.extend(f(x) for x in S)` and `[f(x) for x in S]` are the same list, and a
+#     list subclass built from any of them (or from a generator) holds the same elements; the empty list subclass has length 0.
+# (b) the clause-side field-wise reading of a CONCRETE list of instances (X._view_of_concrete) reports element k's fields at index k.
+from swcgeom.core import Tree
+from swcgeom.core.compartment import Compartments
+
+_t = Tree(4, id=[0, 1, 2, 3], pid=[-1, 0, 1, 1], x=[0, 1, 2, 3], y=[0, 0, 0, 0], z=[0, 0, 0, 0], r=[1, 1, 1, 1], type=[1, 3, 3, 3])
+_f = lambda i: _t.Compartment(_t, _t.pid()[i], _t.id()[i])
+_l1 = []
+for _i in range(1, 4):
+    _l1.append(_f(_i))
+_l2 = []
+_l2.extend(_f(_i) for _i in range(1, 4))
+_l3 = [_f(_i) for _i in range(1, 4)]
+_key = lambda cs: [(type(c).__name__, c.attach is _t, c.idx.tolist()) for c in cs]
+expect("append loop = extend(generator)", _key(_l1), _key(_l2))
+expect("append loop = comprehension", _key(_l1), _key(_l3))
+expect("list subclass from list = from generator", _key(Compartments(_l1)), _key(Compartments(_f(_i) for _i in range(1, 4))))
+expect("list subclass from the library's own form", _key(Compartments(_l1)), _key(_t.get_compartments()))
+expect("empty list subclass", len(Compartments([])), 0)
+
+from pyvc.values import Obj
+
+_objs = [Obj(Tree.Compartment, dict(attach="T", idx=NArr((2,), [p_, c_], "int", None), tag=k_)) for k_, (p_, c_) in enumerate([(0, 1), (1, 2), (1, 3)])]
+_h = X._handles_of(PList(_objs))
+expect("view: class / shared field / length", (_h.cls_, _h.fixed.get("attach"), ival(X.zint(_h.n), [])), (Tree.Compartment, "T", 3))
+for k_, (p_, c_) in enumerate([(0, 1), (1, 2), (1, 3)]):
+    expect(f"view: element {k_}", (ival(z3.Select(_h.vec("idx", 0), k_), []), ival(z3.Select(_h.vec("idx", 1), k_), []), ival(z3.Select(_h.col("tag"), k_), [])), (p_, c_, k_))
+_h0 = X._handles_of(PList([]))
+expect("view of the empty list", (X.is_list_of(_h0, Tree.Compartment, attach="T"), X.has_vec(_h0, "idx", (2,)), ival(X.zint(_h0.n), [])), (True, True, 0))
+expect("view: mixed classes are refused", X._handles_of(PList([_objs[0], Obj(Tree.Node, dict(_objs[0].fields))])), None)
+expect("is_list_of: wrong class / wrong owner", (X.is_list_of(_h, Tree.Node), X.is_list_of(_h, Tree.Compartment, attach="U")), (False, False))
+
 print("mismatches:", bad)
 sys.exit(1 if bad else 0)
